@@ -367,12 +367,19 @@ func (s *Store) mergeSegStacks(footer *Footer, splicePoint int,
 	}
 
 	if footerSS != nil {
-		rv.a = append(rv.a, footerSS.a[splicePoint:]...)
+		// The splice point was chosen from the top-level collection's
+		// segments; a child collection can have fewer segments.
+		splice := splicePoint
+		if splice > lenFooterSS {
+			splice = lenFooterSS
+		}
 
-		if splicePoint > 0 {
+		rv.a = append(rv.a, footerSS.a[splice:]...)
+
+		if splice > 0 {
 			rvBase = &segmentStack{
 				options: footerSS.options,
-				a:       footerSS.a[0:splicePoint],
+				a:       footerSS.a[0:splice],
 			}
 		}
 	}
@@ -406,8 +413,13 @@ func (s *Store) mergeSegStacks(footer *Footer, splicePoint int,
 }
 
 func (right *Footer) spliceFooter(left *Footer, splicePoint int) {
-	slocs := make([]SegmentLoc, splicePoint, splicePoint+len(right.SegmentLocs))
-	copy(slocs, left.SegmentLocs[0:splicePoint])
+	splice := splicePoint // See mergeSegStacks().
+	if splice > len(left.SegmentLocs) {
+		splice = len(left.SegmentLocs)
+	}
+
+	slocs := make([]SegmentLoc, splice, splice+len(right.SegmentLocs))
+	copy(slocs, left.SegmentLocs[0:splice])
 	slocs = append(slocs, right.SegmentLocs...)
 	right.SegmentLocs = slocs
 
